@@ -278,6 +278,51 @@ func (m *menc) node(n *run.Node) {
 		m.push(n.B)
 		m.opt(n.Err)
 		m.op('R')
+	case "host":
+		// what the component writes around the children is a hand-written write before / after: Join(pre, host, post)
+		parts := 1
+		if len(n.Pre) > 0 {
+			m.push(n.Pre)
+			m.op('S')
+			m.op('U')
+			parts++
+		}
+		for _, k := range n.Kids {
+			m.node(k)
+		}
+		switch n.HK {
+		case "fwd":
+			m.push([]byte("f"))
+			if n.Lim >= 0 {
+				m.num(n.Lim)
+			} else {
+				m.push(nil)
+			}
+		case "bufio": // judged by the specification only: for the document it is a forwarding writer without a limit
+			m.push([]byte("f"))
+			m.push(nil)
+		case "capture":
+			m.push([]byte("c"))
+			m.push(nil)
+		default:
+			m.push([]byte("p"))
+			m.push(nil)
+		}
+		m.num(n.HErr)
+		m.flag(n.Own)
+		m.num(n.Times)
+		m.num(len(n.Kids))
+		m.op('H')
+		if len(n.Post) > 0 {
+			m.push(n.Post)
+			m.op('S')
+			m.op('U')
+			parts++
+		}
+		if parts > 1 {
+			m.num(parts)
+			m.op('J')
+		}
 	case "func":
 		for _, o := range n.Ops {
 			switch o.K {
@@ -359,6 +404,9 @@ func inputOf(it *item) map[string]any {
 	if j.Probe != "" {
 		in["probe"] = j.Probe
 		in["comps"] = j.Comps
+		if len(j.Hosts) > 0 {
+			in["hand_written_components_passed_a_block"] = j.Hosts
+		}
 	} else if b, _ := json.Marshal(j.Prog); len(b) < 3000 {
 		in["program"] = j.Prog
 	} else {
@@ -490,6 +538,11 @@ func (k *checker) compare() {
 			mres, mout, mlog, mmarks, spec, doc, de := string(f[0]), f[1], string(f[2]), string(f[3]), string(f[4]), f[5], string(f[6])
 			o := it.obs
 			var diffs []string
+			if it.specOnly {
+				// a hand-written component with a bufio.Writer of its own between the block and its writer: the model does not
+				// describe how that writer cuts the block's output up; only the specification predicate judges the render
+				mres, mout = o.Res, o.Out
+			}
 			if mres != o.Res {
 				diffs = append(diffs, fmt.Sprintf("result: model %s, implementation %s", mres, o.Res))
 			}
@@ -544,6 +597,9 @@ func (k *checker) compare() {
 			}
 			c.Count(key)
 			c.Hist(it.family + ": " + resClass(o.Res))
+			if hc := hostClass(it.model); hc != "" {
+				c.Hist("block passed to a hand-written component: " + hc + " -> " + resClass(o.Res))
+			}
 		}
 	}
 	k.compareWrapped(wrapped, tieOK, propOK)
@@ -726,10 +782,113 @@ func randComp(r *rng.R, depth int, maxLit int, nextID *int) *run.Node {
 	return &run.Node{K: "nop"}
 }
 
+// hostKinds are the things a hand-written component does with the block it is passed (run.Node, K "host").
+var hostKinds = []string{"pass", "fwd", "fwd", "fwd-limited", "fwd-limited", "capture", "bufio"}
+
+// mkHost describes one such component. span is roughly the length of the block's output: the limit of a limited
+// forwarding writer is drawn from 0 .. a little beyond it, so that it fails at the first byte, in the middle, at the
+// last byte, or not at all.
+func mkHost(r *rng.R, kind string, span int) *run.Node {
+	h := &run.Node{K: "host", HK: kind, Lim: -1, Times: 1, HErr: 80 + r.Intn(9)}
+	switch r.Intn(6) {
+	case 0:
+		h.Times = 2
+	case 1:
+		if r.Intn(3) == 0 {
+			h.Times = 0
+		}
+	}
+	switch kind {
+	case "fwd":
+		h.Own = r.Bool()
+	case "fwd-limited":
+		h.HK = "fwd"
+		h.Own = r.Bool()
+		h.Lim = r.Intn(h.Times*span + 3)
+		if r.Intn(5) == 0 {
+			h.Lim = []int{0, 1, span - 1, span, span + 1}[r.Intn(5)]
+			if h.Lim < 0 {
+				h.Lim = 0
+			}
+		}
+	case "bufio":
+		h.Size = []int{1, 7, 16, 64, 4096}[r.Intn(5)]
+	}
+	if r.Intn(3) != 0 {
+		h.Pre, h.Post = []byte("<sec>"), []byte("</sec>")
+	}
+	return h
+}
+
+// randHost: a hand-written component that is passed a block of random statements.
+func randHost(r *rng.R, depth int, maxLit int, nextID *int) *run.Node {
+	kids := randBody(r, depth-1, maxLit, nextID)
+	span := 0
+	for _, k := range kids {
+		span += docLen(k, run.Env{}, nil)
+	}
+	h := mkHost(r, hostKinds[r.Intn(len(hostKinds))], span+8)
+	h.Kids = kids
+	return h
+}
+
+// hasHost reports whether the program contains a host component satisfying p.
+func hasHost(n *run.Node, p func(*run.Node) bool) bool {
+	if n == nil {
+		return false
+	}
+	if n.K == "host" && p(n) {
+		return true
+	}
+	for _, k := range n.Kids {
+		if hasHost(k, p) {
+			return true
+		}
+	}
+	for _, k := range n.Else {
+		if hasHost(k, p) {
+			return true
+		}
+	}
+	return false
+}
+
+// hostClass names, for the evidence histogram, what the hand-written components of the program do with their blocks.
+func hostClass(n *run.Node) string {
+	set := map[string]bool{}
+	hasHost(n, func(h *run.Node) bool {
+		k := h.HK
+		if k == "fwd" && h.Lim >= 0 {
+			k = "fwd-limited"
+			if h.Own {
+				k += "(reports its writer itself)"
+			}
+		}
+		switch h.Times {
+		case 0:
+			k += " x0"
+		case 1:
+		default:
+			k += " x2+"
+		}
+		set[k] = true
+		return false
+	})
+	if len(set) == 0 {
+		return ""
+	}
+	ks := make([]string, 0, len(set))
+	for k := range set {
+		ks = append(ks, k)
+	}
+	sort.Strings(ks)
+	return strings.Join(ks, ", ")
+}
+
 func randBody(r *rng.R, depth int, maxLit int, nextID *int) []*run.Node {
 	var body []*run.Node
 	for i := 1 + r.Intn(5); i > 0; i-- {
-		switch r.Intn(8) {
+		switch r.Intn(9) {
 		case 0, 1:
 			body = append(body, &run.Node{K: "lit", B: randText(r, maxLit)})
 		case 2:
@@ -780,6 +939,12 @@ func randBody(r *rng.R, depth int, maxLit int, nextID *int) []*run.Node {
 			}
 			*nextID++
 			body = append(body, &run.Node{K: "for", ID: *nextID, Kids: randBody(r, depth-1, maxLit, nextID)})
+		case 6:
+			if depth <= 0 {
+				body = append(body, randComp(r, depth, maxLit, nextID))
+				continue
+			}
+			body = append(body, randHost(r, depth, maxLit, nextID))
 		default:
 			body = append(body, randComp(r, depth, maxLit, nextID))
 		}
@@ -854,6 +1019,9 @@ func buildEnv(r *rng.R, prog *run.Node, failExpr bool, maxIter int) run.Env {
 			}
 			walkAll(n.Kids, path, live && taken)
 			walkAll(n.Else, path, live && !taken)
+			return
+		case "host":
+			walkAll(n.Kids, path, live && n.Times > 0)
 			return
 		case "for":
 			cnt := r.Intn(maxIter + 1)
@@ -991,6 +1159,9 @@ var sinkKinds = []struct{ sw, fl bool }{{false, false}, {true, true}, {true, fal
 
 func (k *checker) add(family string, cap int, progID string, model *run.Node, j *run.Job) *item {
 	it := &item{family: family, cap: cap, job: j, model: model, progID: progID}
+	if hasHost(model, func(h *run.Node) bool { return h.HK == "bufio" }) {
+		it.specOnly, it.loose = true, true
+	}
 	for i := len(k.items) - 1; i >= 0 && i >= len(k.items)-3; i-- {
 		if k.items[i].family == family {
 			it.prev = k.items[i]
@@ -1030,6 +1201,8 @@ func docLen(n *run.Node, env run.Env, path []int) int {
 			t += sum(n.Kids, append([]int{it}, path...))
 		}
 		return t
+	case "host":
+		return len(n.Pre) + n.Times*sum(n.Kids, path) + len(n.Post)
 	}
 	return sum(n.Kids, path)
 }
@@ -1193,15 +1366,18 @@ func Run(c *core.Ctx) {
 			nComp int
 			large bool
 			huge  bool
+			nHost int // hand-written components the template passes a block of children to (v.K(i))
 		}
-		probes := []pv{{"small", 2, 0, false, false}, {"nested", 4, 2, false, false}, {"fl", 3, 2, false, false}, {"once", 2, 0, false, false}, {"jn", 2, 3, false, false},
-			{"cf", 0, 3, false, false}, {"big", 3, 2, true, false}, {"edge", 2, 1, true, false}, {"huge", 2, 1, true, true}}
+		probes := []pv{{"small", 2, 0, false, false, 0}, {"nested", 4, 2, false, false, 0}, {"fl", 3, 2, false, false, 0}, {"once", 2, 0, false, false, 0}, {"jn", 2, 3, false, false, 0},
+			{"cf", 0, 3, false, false, 0}, {"big", 3, 2, true, false, 0}, {"edge", 2, 1, true, false, 0}, {"huge", 2, 1, true, true, 0},
+			{"hostone", 3, 1, false, false, 1}, {"hostnest", 3, 0, false, false, 3}, {"hostbig", 2, 1, true, false, 1}}
 		for _, pr := range probes {
 			// environments: all fine; each expression failing in turn; each component failing in turn
 			type variant struct {
 				env   run.Env
 				comps map[int]*run.Node
 				what  string
+				hosts map[int]*run.Node
 			}
 			mkComps := func(fail int) map[int]*run.Node {
 				cs := map[int]*run.Node{}
@@ -1228,33 +1404,120 @@ func Run(c *core.Ctx) {
 				}
 				return env
 			}
-			variants := []variant{{mkEnv(0), mkComps(0), "ok"}}
+			variants := []variant{{mkEnv(0), mkComps(0), "ok", nil}}
 			if pr.name == "cf" {
 				// control flow: arguments selecting every branch, 0 / 1 / many iterations, nested loops, every switch
 				// arm, the conditional and boolean attributes on and off, an erroring expression in each position
 				// including iteration k of the outer and of the inner loop
 				variants = nil
 				for _, o := range cfVariants() {
-					variants = append(variants, variant{o.env, mkComps(o.failComp), o.what})
+					variants = append(variants, variant{o.env, mkComps(o.failComp), o.what, nil})
 				}
 			}
 			for e := 1; e <= 4 && pr.name != "cf"; e++ {
-				variants = append(variants, variant{mkEnv(e), mkComps(0), fmt.Sprintf("expr%d fails", e)})
+				variants = append(variants, variant{mkEnv(e), mkComps(0), fmt.Sprintf("expr%d fails", e), nil})
 			}
 			for cpi := 1; cpi <= pr.nComp; cpi++ {
-				variants = append(variants, variant{mkEnv(0), mkComps(cpi), fmt.Sprintf("comp%d fails", cpi)})
+				variants = append(variants, variant{mkEnv(0), mkComps(cpi), fmt.Sprintf("comp%d fails", cpi), nil})
+			}
+			if pr.nHost > 0 {
+				// the block goes to a hand-written component: every thing such a component does with it (into its own writer,
+				// through a forwarding writer of its own - unlimited, or failing after k bytes for k from 0 to beyond the
+				// block's output -, into a bytes.Buffer or a bufio.Writer of its own; once, twice, not at all), with all
+				// expressions fine and with an expression / a component inside or after the block failing
+				base := variants
+				variants = nil
+				mkEnvH := func(fail int) run.Env {
+					env := mkEnv(fail)
+					env[run.Key(nil, 201)] = run.Val{S: []byte("2")}
+					for it := 0; it < 2; it++ {
+						env[run.Key([]int{it}, 3)] = run.Val{S: []byte(fmt.Sprintf("it%d&", it))}
+					}
+					return env
+				}
+				// the length of each component's block, measured on the model with pass-through components
+				spans := map[int]int{}
+				{
+					hs := map[int]*run.Node{}
+					for i := 1; i <= pr.nHost; i++ {
+						hs[i] = &run.Node{K: "host", HK: "pass", Lim: -1, Times: 1, HErr: 80 + i}
+					}
+					if m0, terrs := modelOfProbe(g, pr.name, mkComps(0), hs); len(terrs) == 0 {
+						hasHost(m0, func(h *run.Node) bool {
+							t := 0
+							for _, kd := range h.Kids {
+								t += docLen(kd, mkEnvH(0), nil)
+							}
+							spans[h.HErr-80] = t
+							return false
+						})
+					}
+				}
+				type hcfg struct {
+					kind  string
+					times int
+					lim   int // -1 none; -2: drawn at random within the block; otherwise relative to the end of the block's output: span + lim - 100
+					own   bool
+					size  int
+				}
+				cfgs := []hcfg{{"pass", 1, -1, false, 0}, {"fwd", 1, -1, false, 0}, {"capture", 1, -1, false, 0}, {"pass", 2, -1, false, 0}, {"fwd", 2, -1, true, 0},
+					{"fwd", 0, -1, false, 0}, {"capture", 2, -1, false, 0}, {"capture", 0, -1, false, 0},
+					{"fwd", 1, 0, false, 0}, {"fwd", 1, 0, true, 0}, {"fwd", 1, 1, false, 0}, {"fwd", 1, -2, false, 0}, {"fwd", 1, -2, true, 0}, {"fwd", 2, -2, false, 0},
+					{"fwd", 1, 99, false, 0}, {"fwd", 1, 100, true, 0}, {"fwd", 1, 101, false, 0},
+					{"bufio", 1, -1, false, 8}, {"bufio", 1, -1, false, 4096}, {"bufio", 2, -1, false, 1}}
+				if pr.large {
+					cfgs = []hcfg{{"fwd", 1, -1, false, 0}, {"capture", 1, -1, false, 0}, {"fwd", 1, -2, false, 0}, {"fwd", 1, 99, true, 0}, {"fwd", 2, -1, false, 0}, {"bufio", 1, -1, false, 64}}
+				}
+				for ci, cf := range cfgs {
+					hs := map[int]*run.Node{}
+					var names []string
+					for i := 1; i <= pr.nHost; i++ {
+						cfi := cfgs[(ci+(i-1)*7)%len(cfgs)] // the other components of a template take other behaviours
+						if i == 1 {
+							cfi = cf
+						}
+						h := &run.Node{K: "host", HK: cfi.kind, Lim: -1, Times: cfi.times, Own: cfi.own, Size: cfi.size, HErr: 80 + i}
+						span := spans[i] * cfi.times
+						switch {
+						case cfi.lim == -2:
+							h.Lim = r.Intn(span + 1)
+						case cfi.lim >= 90:
+							h.Lim = span + cfi.lim - 100
+						case cfi.lim >= 0:
+							h.Lim = cfi.lim
+						}
+						if h.Lim < -1 {
+							h.Lim = 0
+						}
+						if (ci+i)%3 != 0 {
+							h.Pre, h.Post = []byte("<sec>"), []byte("</sec>")
+						}
+						hs[i] = h
+						names = append(names, fmt.Sprintf("%s x%d lim=%d own=%v", h.HK, h.Times, h.Lim, h.Own))
+					}
+					what := "components " + strings.Join(names, " | ")
+					variants = append(variants, variant{mkEnvH(0), mkComps(0), what + ", ok", hs})
+					if ci%3 == 0 || !c.Quick() {
+						fe := 1 + ci%pr.nExpr
+						variants = append(variants, variant{mkEnvH(fe), mkComps(0), fmt.Sprintf("%s, expr%d fails", what, fe), hs})
+						if pr.nComp > 0 {
+							variants = append(variants, variant{mkEnvH(0), mkComps(1), what + ", comp1 fails", hs})
+						}
+					}
+				}
+				_ = base
 			}
 			for vi, v := range variants {
 				v := v
-				model, terrs := modelOfProbe(g, pr.name, v.comps)
+				model, terrs := modelOfProbe(g, pr.name, v.comps, v.hosts)
 				if len(terrs) > 0 {
 					c.Oblige("correspondence", "probe "+pr.name+" translates into the model's program shape", false, strings.Join(terrs, "; "))
 					continue
 				}
 				pid := fmt.Sprintf("probe:%s/%s", pr.name, v.what)
-				mk := func() *run.Job { return &run.Job{Probe: pr.name, Env: v.env, Comps: v.comps} }
+				mk := func() *run.Job { return &run.Job{Probe: pr.name, Env: v.env, Comps: v.comps, Hosts: v.hosts} }
 				dl := docLen(model, v.env, nil)
-				if !pr.huge && (vi == 0 || vi == len(variants)-1) {
+				if !pr.huge && (vi == 0 || vi == len(variants)-1 || (pr.nHost > 0 && vi%5 == 1)) {
 					for w := 0; w < 1+2*(len(variants)-1-vi)/(len(variants)-1); w++ { // the all-fine variant three times, a failing one once
 						srcs4096 = append(srcs4096, progSrc{pid, model, mk, dl})
 						if !pr.large {
@@ -1746,7 +2009,7 @@ func (k *checker) destSequences(family string, cap int, srcs []progSrc, n int) [
 			}
 			j.Tag = fmt.Sprintf("%s sequence %d render %d into object %d (%s)", src.pid, s, pos, ids[oi], destKind(j.Sink))
 			it := k.add(family, cap, src.pid, src.model, j)
-			it.loose, it.specOnly = loose[oi], specOnly
+			it.loose, it.specOnly = it.loose || loose[oi], it.specOnly || specOnly
 			seq = append(seq, it)
 			it.seq, it.pos = seq, pos
 			out = append(out, it)
